@@ -93,9 +93,17 @@ def cases(ctx, tier):
             b = -a + rng.choice([1, -1, 1 << 64, -(1 << 64)])  # near cancellation
         elif r < 0.4:
             b = (abs(a) ^ (1 << rng.randrange(max(1, abs(a).bit_length())))) * rng.choice([1, -1])
+        elif r < 0.55:
+            # lengths differ by one limb and the difference loses several limbs
+            n = rng.randrange(2, 9); k = rng.randrange(1, n)
+            a = (1 << (64 * k)) + rng.choice([0, 1, rng.getrandbits(20), rng.getrandbits(64 * rng.randrange(0, k) + 1)])
+            b = -((1 << (64 * k)) - rng.choice([1, 1, rng.getrandbits(20) + 1, rng.getrandbits(64 * rng.randrange(0, k) + 1) + 1]))
+            if rng.getrandbits(1): a, b = -a, -b
+            if rng.getrandbits(1): a, b = b, a
         al = rng.choice([0, 1, 2, 3, 4])
         add('mpz_add %s %s %d' % (hx(a), hx(b), al), 'mpz_add')
         add('mpz_sub %s %s %d' % (hx(a), hx(b), al), 'mpz_sub')
+        add('mpz_sub %s %s %d' % (hx(a), hx(-b), al), 'mpz_sub')
         v = limb(rng)
         if rng.random() < 0.3 and a != 0:
             # |a| one limb and close to v, or carry into a new limb
